@@ -84,24 +84,36 @@ def finalName (seen : Seen) (c : Elem) : String :=
   | some i => n ++ "_" ++ toString i
   | none => n
 
-mutual
-def rename (seen : Seen) : Elem → Elem
-  | .mk c kw items addI cont props pats addP pn deps els =>
-    let c' := match c with
-      | .object _ => Cls.object (finalName seen (.mk c kw items addI cont props pats addP pn deps els))
-      | c => c
-    .mk c' kw (renList seen items) (renOpt seen addI) (renOpt seen cont) (renKeyed seen props)
-      (renKeyed seen pats) (renOpt seen addP) (renOpt seen pn) (renKeyed seen deps) (renList seen els)
-def renOpt (seen : Seen) : Option Elem → Option Elem
-  | none => none
-  | some e => some (rename seen e)
-def renList (seen : Seen) : List Elem → List Elem
-  | [] => []
-  | e :: es => rename seen e :: renList seen es
-def renKeyed (seen : Seen) : List (Key × Elem) → List (Key × Elem)
-  | [] => []
-  | (k, e) :: r => (k, rename seen e) :: renKeyed seen r
-end
+/-- the class object an occurrence *is*: the first class of that title equal to it (`dedupe` returns the earlier
+    object, so the occurrence's own spelling of equal literals — `1` vs `1.0`, member order — is not kept) -/
+def representative (seen : Seen) (c : Elem) : Elem :=
+  let l := seenLookup seen (clsTitle c.cls)
+  match indexOfEq c l 0 with
+  | some i => (l[i]?).getD c
+  | none => c
+
+/-- every class occurrence replaced by its representative and given its final name, at every depth.
+    `fuel` bounds the depth (a representative is equal to, hence as deep as, the occurrence it replaces). -/
+def renameF (seen : Seen) : Nat → Elem → Elem
+  | 0, e => e
+  | fuel + 1, e =>
+    match e.cls with
+    | .object _ =>
+      match representative seen e with
+      | .mk _ kw items addI cont props pats addP pn deps els =>
+        .mk (.object (finalName seen e)) kw (items.map (renameF seen fuel)) (addI.map (renameF seen fuel))
+          (cont.map (renameF seen fuel)) (props.map fun p => (p.1, renameF seen fuel p.2))
+          (pats.map fun p => (p.1, renameF seen fuel p.2)) (addP.map (renameF seen fuel)) (pn.map (renameF seen fuel))
+          (deps.map fun p => (p.1, renameF seen fuel p.2)) (els.map (renameF seen fuel))
+    | _ =>
+      match e with
+      | .mk c kw items addI cont props pats addP pn deps els =>
+        .mk c kw (items.map (renameF seen fuel)) (addI.map (renameF seen fuel))
+          (cont.map (renameF seen fuel)) (props.map fun p => (p.1, renameF seen fuel p.2))
+          (pats.map fun p => (p.1, renameF seen fuel p.2)) (addP.map (renameF seen fuel)) (pn.map (renameF seen fuel))
+          (deps.map fun p => (p.1, renameF seen fuel p.2)) (els.map (renameF seen fuel))
+
+def rename (seen : Seen) (e : Elem) : Elem := renameF seen 128 e
 
 /-- `parse_element(schema)` with a fresh `_ParseState` -/
 def parseNamed1 (cx : PCtx) (s : Schema) : Except PErr Elem :=
